@@ -681,7 +681,9 @@ def geterrortext(
         raise
     except BaseException:
         errortext = f"{type(exc).__name__}: {exc}"
-    return errortext
+    # the text is sent as utf-8: escape what cannot be encoded (e.g. a lone
+    # surrogate in the message), otherwise the error is never reported at all
+    return errortext.encode("utf-8", "backslashreplace").decode("utf-8")
 
 
 class RemoteError(Exception):
